@@ -311,6 +311,43 @@ type DerivCase struct {
 	D model.Route `json:"d"`
 }
 
+// spacingNeighbours returns variants of s with one blank inserted after, or
+// removed after, a ':' or ',' - wherever it occurs, also inside regex text,
+// where a blank is part of the value. Parsing them right after s with the same
+// parser instance shows whether anything is carried from one parse to the next.
+func spacingNeighbours(s string) []string {
+	var out []string
+	for i := 0; i < len(s); i++ {
+		if s[i] != ':' && s[i] != ',' {
+			continue
+		}
+		out = append(out, s[:i+1]+" "+s[i+1:])
+		if i+1 < len(s) && s[i+1] == ' ' {
+			out = append(out, s[:i+1]+s[i+2:])
+		}
+	}
+	return out
+}
+
+// checkWithNeighbours checks s, then its spacing neighbours, then s again.
+func checkWithNeighbours(s string) evid.Outcome {
+	out := checkString(s)
+	if out.Violation != "" {
+		return out
+	}
+	for _, n := range spacingNeighbours(s) {
+		if o := checkString(n); o.Violation != "" {
+			o.Violation = fmt.Sprintf("after parsing %q with the same parser: %s", s, o.Violation)
+			return o
+		}
+	}
+	if o := checkString(s); o.Violation != "" {
+		o.Violation = "parsed again after its spacing neighbours: " + o.Violation
+		return o
+	}
+	return out
+}
+
 func checkDerivation(c DerivCase) evid.Outcome {
 	s, err := strconv.Unquote(c.Q)
 	if err != nil {
@@ -321,7 +358,7 @@ func checkDerivation(c DerivCase) evid.Outcome {
 	if !ok || !reflect.DeepEqual(strip(ref), strip(c.D)) {
 		panic(fmt.Sprintf("harness: derivation %s renders to %q which the reference parser reads as %s (ok=%v)", js(c.D), s, js(ref), ok))
 	}
-	out := checkString(s)
+	out := checkWithNeighbours(s)
 	out.NonTrivial = true
 	got, perr := parser.Parse(s)
 	if out.Violation == "" && perr == nil && !reflect.DeepEqual(astToModel(got), strip(c.D)) {
@@ -417,7 +454,7 @@ func TestMutations(t *testing.T) {
 		}
 		s := mutate(t, base)
 		c := mk(s)
-		evid.Run(t, "string", c, func() evid.Outcome { return checkString(s) })
+		evid.Run(t, "string", c, func() evid.Outcome { return checkWithNeighbours(s) })
 	})
 }
 
@@ -428,7 +465,7 @@ func FuzzParse(f *testing.F) {
 		f.Add(s)
 	}
 	f.Fuzz(func(t *testing.T, s string) {
-		out := evid.Protect(func() evid.Outcome { return checkString(s) })
+		out := evid.Protect(func() evid.Outcome { return checkWithNeighbours(s) })
 		if out.Violation != "" {
 			t.Fatalf("VIOLATION-CASE %s\n%s", js(mk(s)), out.Violation)
 		}
@@ -444,7 +481,7 @@ func TestReplay(t *testing.T) {
 			if err := json.Unmarshal(raw, &c); err != nil {
 				panic(err)
 			}
-			return checkString(c.str())
+			return checkWithNeighbours(c.str())
 		},
 		"derivation": func(raw json.RawMessage) evid.Outcome {
 			var c DerivCase
